@@ -213,7 +213,9 @@ class Blob(BaseColumnType):
   """
   @classmethod
   def do_convert(cls, value):
-    return value
+    if isinstance(value, (bytes, NoneType)):
+      return value
+    raise objtypes.ConversionError("Blob")
 
   @classmethod
   def is_right_type(cls, value):
